@@ -52,3 +52,40 @@ func TestActionResourceMismatchRefusedInEveryOrder(t *testing.T) {
 		t.Fatalf("object action s3:GetObject on a bucket-only resource was accepted in %d of 300 runs (depends on map iteration order)", accepted)
 	}
 }
+
+// A statement without Principal (or Action, or Resource) matches nothing. It was accepted on put: a Deny written that
+// way silently did not apply, and the Allow beside it decided.
+func TestStatementWithoutPrincipalRefused(t *testing.T) {
+	iam := auth.NewIAMServiceSingle(auth.Account{Access: "root"})
+	for _, doc := range []string{
+		`{"Statement":[{"Effect":"Deny","Action":"s3:GetObject","Resource":"arn:aws:s3:::bkt/*"},{"Effect":"Allow","Principal":"*","Action":"s3:GetObject","Resource":"arn:aws:s3:::bkt/*"}]}`,
+		`{"Statement":[{"Effect":"Allow","Principal":"*","Resource":"arn:aws:s3:::bkt/*"}]}`,
+		`{"Statement":[{"Effect":"Allow","Principal":"*","Action":"s3:GetObject"}]}`,
+		`{"Statement":[{"Effect":"Allow"}]}`,
+	} {
+		if err := auth.ValidatePolicyDocument([]byte(doc), "bkt", iam); err == nil {
+			t.Errorf("accepted on put: %s", doc)
+		}
+	}
+}
+
+// Condition, NotPrincipal, NotAction and NotResource restrict a statement; the gateway does not evaluate them. They were
+// dropped silently: an Allow restricted to an address range granted unconditionally, a Deny for everybody but alice
+// denied alice.
+func TestUnsupportedStatementElementsRefused(t *testing.T) {
+	iam := auth.NewIAMServiceSingle(auth.Account{Access: "root"})
+	for _, doc := range []string{
+		`{"Statement":[{"Effect":"Allow","Principal":"*","Action":"s3:GetObject","Resource":"arn:aws:s3:::bkt/*","Condition":{"IpAddress":{"aws:SourceIp":"10.0.0.0/8"}}}]}`,
+		`{"Statement":[{"Effect":"Deny","NotPrincipal":{"AWS":"alice"},"Principal":"*","Action":"s3:GetObject","Resource":"arn:aws:s3:::bkt/*"}]}`,
+		`{"Statement":[{"Effect":"Allow","Principal":"*","NotAction":"s3:DeleteObject","Action":"s3:GetObject","Resource":"arn:aws:s3:::bkt/*"}]}`,
+		`{"Statement":[{"Effect":"Allow","Principal":"*","Action":"s3:GetObject","Resource":"arn:aws:s3:::bkt/*","NotResource":"arn:aws:s3:::bkt/private/*"}]}`,
+	} {
+		if err := auth.ValidatePolicyDocument([]byte(doc), "bkt", iam); err == nil {
+			t.Errorf("accepted on put: %s", doc)
+		}
+	}
+	ok := `{"Version":"2012-10-17","Id":"p","Statement":[{"Sid":"s","Effect":"Allow","Principal":"*","Action":"s3:GetObject","Resource":"arn:aws:s3:::bkt/*"}]}`
+	if err := auth.ValidatePolicyDocument([]byte(ok), "bkt", iam); err != nil {
+		t.Errorf("a plain statement with Version, Id and Sid is refused: %v", err)
+	}
+}
